@@ -9,7 +9,11 @@
 
     sweep      the reverse sweep of HEAD (after fix d732c46): pop what is pending at the entry's key,
                record it as that node's adjoint, send the messages to the arguments' keys
-    sweepOld   the sweep before that fix: propagate the cumulative total stored under the key
+    result     what `tape.adjoint` returns on HEAD (after fix 2cc17fb): node adjoints recorded when popped
+               (by entry), leaf adjoints = what is left pending
+    resultOldKeyed  the result before that fix: cumulative totals keyed by eager value, relabelled through
+               `_eager_to_lazy`
+    sweepOld   the sweep before fix d732c46: propagate the cumulative total stored under the key
     treeBack   the tree-shaped reverse pass on the unfolding of the DAG: a message sent to a key is pushed
                through the newest entry that produces the key, recursively, down to the leaves
     tapeOf     the tape of a C11 expression with structurally equal sub-terms hash-consed to one entry
@@ -45,6 +49,33 @@ def popped : List (Entry M) → List (Nat × M) → List (Nat × M)
   | e :: older, bag =>
       (e.key, pendingAt add zero bag e.key) ::
         popped older (removeKey bag e.key ++ send e (pendingAt add zero bag e.key))
+
+/-- `tape.adjoint(...)` on HEAD (after fix 2cc17fb): the adjoint of the i-th tape node is what was
+    popped at its entry (`adjoint_values[lazy_output]`, recorded at pop time, identified by the entry —
+    not by its eager value); the adjoints of the leaves are what is never popped (`pending`). -/
+structure Result (M : Type) where
+  nodes : List (Nat × M)      -- in sweep order: (eager key of the entry, adjoint recorded for the node)
+  leaves : List (Nat × M)     -- leftover `pending`
+
+def result (tape : List (Entry M)) (bag : List (Nat × M)) : Result M :=
+  ⟨popped add zero tape bag, sweep add zero tape bag⟩
+
+/-- every message ever sent during the sweep (HEAD propagation) -/
+def sent : List (Entry M) → List (Nat × M) → List (Nat × M)
+  | [], _ => []
+  | e :: older, bag =>
+      let msgs := send e (pendingAt add zero bag e.key)
+      msgs ++ sent older (removeKey bag e.key ++ msgs)
+
+/-- `adjoint_values` before fix 2cc17fb: cumulative totals keyed by *eager value* (initial seed plus
+    every message), reported under `_eager_to_lazy.get(key, key)`: a key that is the output of some tape
+    entry is reported as that entry's lazy term (modelled as `lazyBase + key`), any other key as itself. -/
+def lazyBase : Nat := 1000000
+
+def resultOldKeyed (tape : List (Entry M)) (bag : List (Nat × M)) (q : Nat) : M :=
+  let all := bag ++ sent add zero tape bag
+  let relabel : Nat → Nat := fun k => if tape.any (fun e => e.key == k) then lazyBase + k else k
+  pendingAt add zero (all.map (fun p => (relabel p.1, p.2))) q
 
 /-- The sweep before fix d732c46: nothing is popped; an entry propagates the cumulative total stored
     under its key, and messages are added to the totals. -/
